@@ -1,9 +1,12 @@
 (* Properties_C08.v — property C08 (scaling arithmetic: every representable raw value survives decode then encode) as theorems
    about the regulation-level specification ScalSpec.v and the floating-point mirror ScalImpl.v of the library's conversion
    functions.  Only statements, `exact`, Print Assumptions and Examples.
+   ScalImpl.v mirrors two variants of the negative-scale arithmetic (fx_neg = false: x / pow(10,scale), the code before
+   proposed_fixes/C08_remaining.diff; fx_neg = true: x * pow(10,-scale), after it); lib/c08.py probes which one the tree
+   implements.  Theorems quantified over fx_neg hold for both.
    The full claim about the library's branchy float encoder is ScalImplProof.C08_full_statement; what is proved of it is
-   C08_encode_float_eq_raw_partial (finite domain) — and the two `_refuted` theorems show where the current code departs
-   from the property. *)
+   C08_encode_float_eq_raw_partial (finite domain) and C08_encode_never_wider; C08_encode_exact_physical_refuted shows where
+   the fx_neg = false code departs from the property. *)
 From Coq Require Import ZArith QArith Reals List.
 From Flocq Require Import Core BinarySingleNaN.
 From V Require Import Fm94 GenTables ScalSpec ScalSpecProof ScalImpl ScalImplProof ScalPartial.
@@ -77,73 +80,84 @@ Print Assumptions C08_rawQ_physQ_roundtrip.
 (* ---------------------------------------------------------------- the library's decode (bufr_cvt_i64_to_dval) on binary64 *)
 
 (* scale 0..22: one correctly rounded division of exact operands: within 2^-53 relative of the exact physical value *)
-Theorem C08_decode_float_close : forall pow10, pow10_contract pow10 -> forall en i,
+Theorem C08_decode_float_close : forall pow10 fx_neg, pow10_contract pow10 -> forall en i,
   0 <= e_scale en <= 22 -> 0 <= i -> i <> missing_ivalue (e_nbits en) ->
   Z.abs (i + e_ref en) < 2 ^ 53 ->
-  (Rabs (B2R (cvt_i64_to_dval pow10 en i) - physR (e_scale en) (e_ref en) i)
+  (Rabs (B2R (cvt_i64_to_dval pow10 fx_neg en i) - physR (e_scale en) (e_ref en) i)
      <= bpow radix2 (- 53) * Rabs (physR (e_scale en) (e_ref en) i))%R
-  /\ is_finite (cvt_i64_to_dval pow10 en i) = true.
+  /\ is_finite (cvt_i64_to_dval pow10 fx_neg en i) = true.
 Proof. exact decode_float_close. Qed.
 Print Assumptions C08_decode_float_close.
 
-(* negative scale: pow(10,s) is itself rounded (contract: within 2^-52 relative): two roundings, within 2^-51 relative *)
-Theorem C08_decode_float_close_neg : forall pow10, pow10_neg_contract pow10 -> forall en i,
+(* negative scale, fx_neg = false: pow(10,s) is itself rounded (contract: within 2^-52 relative): two roundings, within 2^-51 *)
+Theorem C08_decode_float_close_neg_div : forall pow10, pow10_neg_contract pow10 -> forall en i,
   -22 <= e_scale en < 0 -> 0 <= i -> i <> missing_ivalue (e_nbits en) ->
   Z.abs (i + e_ref en) < 2 ^ 53 ->
-  (Rabs (B2R (cvt_i64_to_dval pow10 en i) - physR (e_scale en) (e_ref en) i)
+  (Rabs (B2R (cvt_i64_to_dval pow10 false en i) - physR (e_scale en) (e_ref en) i)
      <= bpow radix2 (- 51) * Rabs (physR (e_scale en) (e_ref en) i))%R
-  /\ is_finite (cvt_i64_to_dval pow10 en i) = true.
-Proof. exact decode_float_close_neg. Qed.
-Print Assumptions C08_decode_float_close_neg.
+  /\ is_finite (cvt_i64_to_dval pow10 false en i) = true.
+Proof. exact decode_float_close_neg_div. Qed.
+Print Assumptions C08_decode_float_close_neg_div.
+
+(* negative scale, fx_neg = true: one correctly rounded product by the exact 10^-s: within 2^-53 *)
+Theorem C08_decode_float_close_neg_mul : forall pow10, pow10_contract pow10 -> forall en i,
+  -22 <= e_scale en < 0 -> 0 <= i -> i <> missing_ivalue (e_nbits en) ->
+  Z.abs (i + e_ref en) < 2 ^ 53 ->
+  (Rabs (B2R (cvt_i64_to_dval pow10 true en i) - physR (e_scale en) (e_ref en) i)
+     <= bpow radix2 (- 53) * Rabs (physR (e_scale en) (e_ref en) i))%R
+  /\ is_finite (cvt_i64_to_dval pow10 true en i) = true.
+Proof. exact decode_float_close_neg_mul. Qed.
+Print Assumptions C08_decode_float_close_neg_mul.
 
 (* every representable raw value survives the library's decode followed by the regulation's quantisation *)
-Theorem C08_spec_raw_of_library_decode : forall pow10, pow10_contract pow10 -> forall en i,
+Theorem C08_spec_raw_of_library_decode : forall pow10 fx_neg, pow10_contract pow10 -> forall en i,
   0 <= e_scale en <= 22 -> 1 <= e_nbits en <= 32 -> - 2 ^ 31 <= e_ref en < 2 ^ 31 ->
   0 <= i <= 2 ^ e_nbits en - 2 ->
-  quantR (e_scale en) (e_ref en) (e_nbits en) (B2R (cvt_i64_to_dval pow10 en i)) = i.
+  quantR (e_scale en) (e_ref en) (e_nbits en) (B2R (cvt_i64_to_dval pow10 fx_neg en i)) = i.
 Proof. exact spec_raw_of_library_decode. Qed.
 Print Assumptions C08_spec_raw_of_library_decode.
 
-Theorem C08_spec_raw_of_library_decode_neg : forall pow10, pow10_neg_contract pow10 -> forall en i,
+Theorem C08_spec_raw_of_library_decode_neg : forall pow10 fx_neg en i,
+  pow10_contract pow10 -> pow10_neg_contract pow10 ->
   -22 <= e_scale en < 0 -> 1 <= e_nbits en <= 32 -> - 2 ^ 31 <= e_ref en < 2 ^ 31 ->
   0 <= i <= 2 ^ e_nbits en - 2 ->
-  quantR (e_scale en) (e_ref en) (e_nbits en) (B2R (cvt_i64_to_dval pow10 en i)) = i.
+  quantR (e_scale en) (e_ref en) (e_nbits en) (B2R (cvt_i64_to_dval pow10 fx_neg en i)) = i.
 Proof. exact spec_raw_of_library_decode_neg. Qed.
 Print Assumptions C08_spec_raw_of_library_decode_neg.
 
 (* the form the correspondence driver evaluates on every R case *)
-Theorem C08_spec_raw_of_library_decode_Q : forall pow10 en i,
+Theorem C08_spec_raw_of_library_decode_Q : forall pow10 fx_neg en i,
   pow10_contract pow10 ->
   0 <= e_scale en <= 22 -> 1 <= e_nbits en <= 32 -> - 2 ^ 31 <= e_ref en < 2 ^ 31 ->
   0 <= i <= 2 ^ e_nbits en - 2 ->
-  quantQ (e_scale en) (e_ref en) (e_nbits en) (B2Q (cvt_i64_to_dval pow10 en i)) = i.
+  quantQ (e_scale en) (e_ref en) (e_nbits en) (B2Q (cvt_i64_to_dval pow10 fx_neg en i)) = i.
 Proof. exact spec_raw_of_library_decode_Q. Qed.
 Print Assumptions C08_spec_raw_of_library_decode_Q.
 
 (* all ones <-> missing on the library side *)
-Theorem C08_decode_allones_is_missing : forall pow10 en,
-  1 <= e_nbits en < 64 -> cvt_i64_to_dval pow10 en (2 ^ e_nbits en - 1) = dbl_max.
+Theorem C08_decode_allones_is_missing : forall pow10 fx_neg en,
+  1 <= e_nbits en < 64 -> cvt_i64_to_dval pow10 fx_neg en (2 ^ e_nbits en - 1) = dbl_max.
 Proof. exact decode_allones_is_missing. Qed.
 Print Assumptions C08_decode_allones_is_missing.
 
-Theorem C08_encode_missing_is_allones : forall pow10 desc en,
-  1 <= e_nbits en <= 32 -> cvt_dval_to_i64 pow10 desc en dbl_max = 2 ^ e_nbits en - 1.
+Theorem C08_encode_missing_is_allones : forall pow10 fx_neg desc en,
+  1 <= e_nbits en <= 32 -> cvt_dval_to_i64 pow10 fx_neg desc en dbl_max = 2 ^ e_nbits en - 1.
 Proof. exact encode_missing_is_allones. Qed.
 Print Assumptions C08_encode_missing_is_allones.
 
-Theorem C08_decode_not_missing : forall pow10, pow10_contract pow10 -> forall en i,
+Theorem C08_decode_not_missing : forall pow10 fx_neg, pow10_contract pow10 -> forall en i,
   0 <= e_scale en <= 22 -> 0 <= i -> i <> missing_ivalue (e_nbits en) ->
   Z.abs (i + e_ref en) < 2 ^ 53 ->
-  is_missing_double (cvt_i64_to_dval pow10 en i) = false.
+  is_missing_double (cvt_i64_to_dval pow10 fx_neg en i) = false.
 Proof. exact decode_not_missing. Qed.
 Print Assumptions C08_decode_not_missing.
 
 (* ---------------------------------------------------------------- the library's encoder (bufr_cvt_dval_to_i64): range guard *)
 
-(* for scale >= 0 the encoder never returns a value wider than the field, whatever double it is given *)
-Theorem C08_encode_never_wider : forall pow10 desc en f,
-  0 <= e_scale en -> 1 <= e_nbits en <= 32 ->
-  0 <= cvt_dval_to_i64 pow10 desc en f <= 2 ^ e_nbits en - 1.
+(* the encoder never returns a value wider than the field, whatever double it is given *)
+Theorem C08_encode_never_wider : forall pow10 fx_neg desc en f,
+  1 <= e_nbits en <= 32 ->
+  0 <= cvt_dval_to_i64 pow10 fx_neg desc en f <= 2 ^ e_nbits en - 1.
 Proof. exact encode_never_wider. Qed.
 Print Assumptions C08_encode_never_wider.
 
@@ -153,32 +167,35 @@ Print Assumptions C08_encode_never_wider.
    (16 lowest, 16 highest incl. all ones, the sign change of i+ref, i+ref around 2^w-1, first multiples of 10^scale):
    encode (decode i) = i, with the correctly rounded powers of ten *)
 Theorem C08_encode_float_eq_raw_partial :
-  forall T, In T shipped_tables ->
+  forall (fx_neg : bool) T, In T shipped_tables ->
   forall d b, In (d, b) (tB T) -> in_scope b = true ->
   forall i, In i (raw_grid (b_scale b) (b_ref b) (b_width b)) ->
-  cvt_dval_to_i64 pow10_rn d (enc_of b) (cvt_i64_to_dval pow10_rn (enc_of b) i) = i.
+  cvt_dval_to_i64 pow10_rn fx_neg d (enc_of b) (cvt_i64_to_dval pow10_rn fx_neg (enc_of b) i) = i.
 Proof. exact encode_float_eq_raw_partial. Qed.
 Print Assumptions C08_encode_float_eq_raw_partial.
 
-(* ---------------------------------------------------------------- where the current code departs from the property *)
+(* ---------------------------------------------------------------- the negative-scale defect (fx_neg = false) and its repair *)
 
-(* an exactly representable physical value of a raw value below all-ones is stored as missing (negative scale) *)
+(* fx_neg = false: an exactly representable physical value of a raw value below all-ones is stored as missing *)
 Theorem C08_encode_exact_physical_refuted :
   exists en i d,
     (0 <= i <= 2 ^ e_nbits en - 2) /\ is_finite d = true /\
     B2R d = physR (e_scale en) (e_ref en) i /\
-    cvt_dval_to_i64 pow10_rn 2067 en d = 2 ^ e_nbits en - 1.
+    cvt_dval_to_i64 pow10_rn false 2067 en d = 2 ^ e_nbits en - 1.
 Proof. exact encode_exact_physical_refuted. Qed.
 Print Assumptions C08_encode_exact_physical_refuted.
 
-(* a value above the representable range is stored as 2^w, not as missing (negative scale, reference < -(2^w-2)) *)
-Theorem C08_encode_out_of_range_refuted :
-  exists en d,
-    is_finite d = true /\
-    (physR (e_scale en) (e_ref en) (2 ^ e_nbits en - 2) < B2R d)%R /\
-    cvt_dval_to_i64 pow10_rn 1001 en d = 2 ^ e_nbits en.
-Proof. exact encode_out_of_range_refuted. Qed.
-Print Assumptions C08_encode_out_of_range_refuted.
+(* fx_neg = true: the same value is stored as its raw value *)
+Theorem C08_encode_exact_physical_witness :
+  cvt_dval_to_i64 pow10_rn true 2067 {| e_scale := -5; e_ref := 0; e_nbits := 15 |} (d_of_Z 3276600000) = 32766.
+Proof. exact encode_exact_physical_witness. Qed.
+Print Assumptions C08_encode_exact_physical_witness.
+
+(* the former counterexample of "out of range -> missing" (repaired by 3248512) is missing in both variants *)
+Theorem C08_encode_out_of_range_witness :
+  forall fx_neg, cvt_dval_to_i64 pow10_rn fx_neg 1001 {| e_scale := -1; e_ref := -1000; e_nbits := 8 |} (d_of_Z (-7440)) = 2 ^ 8 - 1.
+Proof. exact encode_out_of_range_witness. Qed.
+Print Assumptions C08_encode_out_of_range_witness.
 
 (* ---------------------------------------------------------------- the hypotheses are satisfiable *)
 Theorem C08_pow10_contract_satisfiable : pow10_contract pow10_rn.
